@@ -767,3 +767,42 @@ Proof.
   - apply repl_no_occurrence.
   - intros a rest -> Hq. apply repl_first; [reflexivity|exact Hq].
 Qed.
+
+(* ------------------------------------------------- non-vacuity examples *)
+Example ex_partition : X_left [VStr [97; 233; 128512; 98]; VInt 2] = Ok (VStr [97; 233])
+  /\ X_mid [VStr [97; 233; 128512; 98]; VInt 3; VInt 4] = Ok (VStr [128512; 98]).
+Proof. split; vm_compute; reflexivity. Qed.
+Example ex_right : X_right [VStr [97; 98; 99]; VInt 2] = Ok (VStr [98; 99])
+  /\ X_right [VStr [97; 98; 99]; VInt 7] = Ok (VStr [97; 98; 99]).
+Proof. split; vm_compute; reflexivity. Qed.
+Example ex_replace : X_replace [VStr [97; 98; 99; 100]; VInt 2; VInt 2; VStr [88]] = Ok (VStr [97; 88; 100]).
+Proof. vm_compute. reflexivity. Qed.
+Example ex_find : X_find [VStr [98]; VStr [97; 98; 97; 98]; VInt 3] = Ok (VInt 4)
+  /\ X_find [VStr [122]; VStr [97; 98]; VInt 1] = Ok VERR.
+Proof. split; vm_compute; reflexivity. Qed.
+Example ex_substitute : X_substitute [VStr [97; 97; 97]; VStr [97; 97]; VStr [120]] = Ok (VStr [120; 97])
+  /\ X_substitute [VStr [97; 98; 97; 98; 97]; VStr [97]; VStr [120]; VInt 2] = Ok (VStr [97; 98; 120; 98; 97]).
+Proof. split; vm_compute; reflexivity. Qed.
+Example ex_numbers : X_left [VFloat (inject_Z 3); VInt 5] = Ok (VStr [51])
+  /\ X_left [VFloat (inject_Z 12345); VInt 2] = Ok (VStr [49; 50])
+  /\ X_right [VBool true; VInt 2] = Ok (VStr [85; 69]).
+Proof. repeat split; vm_compute; reflexivity. Qed.
+Example ex_trim : X_trim [VStr [97; 32; 32; 32; 98]] = Ok (VStr [97; 32; 98]).
+Proof. vm_compute. reflexivity. Qed.
+Example ex_upper : X_upper [VStr [97; 233; 128512]] = Ok (VStr [65; 201; 128512]).
+Proof. vm_compute. reflexivity. Qed.
+Example ex_error_propagates : X_left [VStr [35; 78; 47; 65]; VInt 2] = Ok (VStr [35; 78; 47; 65]).
+Proof. vm_compute. reflexivity. Qed.
+
+Lemma repl_equations o old' new cnt :
+  (forall s, no_occurrence (o :: old') s -> repl (o :: old') new cnt s = s)
+  /\ (forall cnt' a rest, cnt_dec cnt = Some cnt' ->
+        (forall q, (q < length a)%nat ->
+                   str_prefix (o :: old') (skipn q (a ++ (o :: old') ++ rest)) = false) ->
+        repl (o :: old') new cnt (a ++ (o :: old') ++ rest)
+        = a ++ new ++ repl (o :: old') new cnt' rest).
+Proof.
+  split.
+  - intros s. apply repl_no_occurrence.
+  - intros cnt' a rest Ec H. apply repl_first; assumption.
+Qed.
